@@ -364,3 +364,182 @@ pub fn gen_msg_program(id: &str, tape: Vec<u32>, opts: &GenOpts) -> Program {
         interfaces,
     }
 }
+
+// ---------------------------------------------------------------------------------------
+// Family `fam_reply`: contracts with `#[sv::features(replies)]` and a reply-handler table.
+
+fn gen_payload(t: &mut Tape, nparams: usize, opts: &GenOpts, mk: &mut Markers) -> Payload {
+    if t.chance(30) {
+        return Payload::Raw;
+    }
+    let n = 1 + t.weighted(&[45, 35, 20]);
+    let mut args: Vec<Arg> = vec![];
+    for _ in 0..n {
+        // names of locals of the generated dispatcher are avoided here; a payload parameter
+        // called e.g. `env` or `data` does not compile (recorded finding, probed by C08)
+        let used: Vec<String> = args
+            .iter()
+            .map(|a| a.name.clone())
+            .chain(
+                ["data", "error", "result", "payload", "deps", "env", "id", "gas_used", "events", "msg_responses", "sub_msg_resp", "msg", "contract", "info"]
+                    .iter()
+                    .map(|s| s.to_string()),
+            )
+            .collect();
+        let name = arg_name(t, &used);
+        let ty = gen_ty(t, nparams, false, 0);
+        args.push(Arg { name, ty, attrs: vec![] });
+    }
+    let _ = (opts, mk);
+    Payload::Typed(args)
+}
+
+/// `order_bias`: when true, a success handler carrying `#[sv::data]` may be declared
+/// *after* the error handler of the same name (the order sensitivity of C14/F4).
+pub fn gen_reply_program(id: &str, tape: Vec<u32>, opts: &GenOpts, any_order: bool) -> Program {
+    let mut t = Tape::new(tape);
+    let t = &mut t;
+    let mut mk = Markers(0);
+    let mut reg = NameReg::default();
+    let ngen = if opts.allow_generics { t.weighted(&[65, 25, 10]) } else { 0 };
+    let generics: Vec<Ty> = (0..ngen).map(|_| CONC[t.pick(CONC.len())].clone()).collect();
+    let error = if t.chance(55) { ErrTy::Custom } else { ErrTy::Std };
+    let custom_err = error == ErrTy::Custom;
+    let (custom_msg, custom_query) = if opts.allow_custom { (t.chance(30), t.chance(30)) } else { (false, false) };
+    let plain = GenOpts { allow_attrs: false, ..opts.clone() };
+    let mut methods = vec![];
+    methods.push(gen_handler(t, &mut reg, 0, Kind::Instantiate, ngen, false, custom_err, &plain, &mut mk));
+    if t.chance(50) {
+        methods.push(gen_handler(t, &mut reg, 0, Kind::Exec, ngen, false, custom_err, &plain, &mut mk));
+    }
+    // handler names
+    let nnames = 1 + t.weighted(&[40, 40, 20]);
+    let mut names: Vec<String> = vec![];
+    while names.len() < nnames {
+        let n = name_s1(t);
+        let upper = convert_case::Casing::to_case(&n, convert_case::Case::UpperSnake);
+        if RESERVED.contains(&n.as_str())
+            || names.iter().any(|o| convert_case::Casing::to_case(o, convert_case::Case::UpperSnake) == upper)
+            || methods.iter().any(|m: &Method| m.name == n)
+        {
+            continue;
+        }
+        names.push(n);
+    }
+    // per name: coverage pattern
+    // 0 success only, 1 error only, 2 both via two methods, 3 always
+    let mut reply_methods: Vec<Method> = vec![];
+    let mut used_method_names: Vec<String> = methods.iter().map(|m| m.name.clone()).collect();
+    let mut fresh_method = |t: &mut Tape, base: &str, sfx: &str, as_handler: bool, used: &mut Vec<String>| -> String {
+        if as_handler && !used.contains(&base.to_string()) {
+            used.push(base.to_string());
+            return base.to_string();
+        }
+        let mut i = 0;
+        loop {
+            let cand = if i == 0 { format!("{base}_{sfx}") } else { format!("{base}_{sfx}{i}") };
+            if !used.contains(&cand) && !RESERVED.contains(&cand.as_str()) {
+                used.push(cand.clone());
+                return cand;
+            }
+            i += 1;
+            let _ = &t;
+        }
+    };
+    let mut i = 0;
+    while i < names.len() {
+        let pattern = t.weighted(&[25, 20, 35, 20]);
+        // share this method set with the next name too?
+        let share = i + 1 < names.len() && t.chance(25);
+        let hnames: Vec<String> = if share { vec![names[i].clone(), names[i + 1].clone()] } else { vec![names[i].clone()] };
+        // payload types never mention the contract's type parameters: the generated
+        // `SubMsgMethods` trait is not generic over them (recorded finding, probed by C08)
+        let payload = gen_payload(t, 0, opts, &mut mk);
+        let data = DataMode::ALL[t.weighted(&[25, 12, 12, 15, 12, 12, 12])];
+        let data_ty = match t.pick(4) {
+            0 => Ty::Rec,
+            1 => Ty::U32,
+            2 => Ty::Str,
+            _ => Ty::Choice,
+        };
+        let mut mkm = |t: &mut Tape, on: ReplyOn, sfx: &str, used: &mut Vec<String>| -> Method {
+            // implicit handler name (= method name) only possible for a single name and one method
+            let implicit = hnames.len() == 1 && t.chance(40);
+            let name = fresh_method(t, &hnames[0], sfx, implicit, used);
+            let handlers = if name == hnames[0] && hnames.len() == 1 { vec![] } else { hnames.clone() };
+            Method {
+                name,
+                role: Role::Handler(Kind::Reply),
+                args: vec![],
+                // dispatch_reply returns the handler's result unconverted: the error type of a
+                // reply handler has to be the contract's error type
+                err: if custom_err { ErrTy::Custom } else { ErrTy::Std },
+                resp: RespTy::EchoA,
+                resp_explicit: false,
+                variant_attrs: vec![],
+                reply: Some(ReplySpec {
+                    handlers,
+                    on,
+                    data: if on == ReplyOn::Success { data } else { DataMode::Absent },
+                    data_ty: data_ty.clone(),
+                    payload: payload.clone(),
+                }),
+            }
+        };
+        match pattern {
+            0 => reply_methods.push(mkm(t, ReplyOn::Success, "ok", &mut used_method_names)),
+            1 => reply_methods.push(mkm(t, ReplyOn::Error, "err", &mut used_method_names)),
+            2 => {
+                let s = mkm(t, ReplyOn::Success, "ok", &mut used_method_names);
+                let e = mkm(t, ReplyOn::Error, "err", &mut used_method_names);
+                let err_first = any_order && t.chance(50);
+                let (s, e) = if s.name == hnames[0] && s.reply.as_ref().unwrap().handlers.is_empty() {
+                    // the success method took the implicit name: the error one must name it explicitly
+                    (s, Method { reply: Some(ReplySpec { handlers: hnames.clone(), ..e.reply.clone().unwrap() }), ..e })
+                } else {
+                    (s, e)
+                };
+                if err_first {
+                    reply_methods.push(e);
+                    reply_methods.push(s);
+                } else {
+                    reply_methods.push(s);
+                    reply_methods.push(e);
+                }
+            }
+            _ => reply_methods.push(mkm(t, ReplyOn::Always, "any", &mut used_method_names)),
+        }
+        i += if share { 2 } else { 1 };
+    }
+    // an implicit-name method must not be shadowed by explicit handlers elsewhere: fix up
+    // methods whose implicit name collides with a second method of the same handler
+    for m in reply_methods.iter_mut() {
+        let spec = m.reply.as_mut().unwrap();
+        if spec.handlers.is_empty() {
+            // keep implicit
+        }
+    }
+    // insert the non-reply methods at random positions, keeping the reply methods' order
+    let others = std::mem::take(&mut methods);
+    methods = reply_methods;
+    for m in others {
+        let pos = t.pick(methods.len() + 1);
+        methods.insert(pos, m);
+    }
+    Program {
+        id: id.to_string(),
+        contract: Contract {
+            generics,
+            rel_bounds: vec![],
+            error,
+            custom_msg,
+            custom_query,
+            replies: true,
+            overrides: vec![],
+            msg_attrs: vec![],
+            methods,
+            entry_points: true,
+        },
+        interfaces: vec![],
+    }
+}
